@@ -264,3 +264,19 @@ def helper_owners(prog, names, allowed):
                 owners[u] = own
                 changed = True
     return owners
+
+
+def op_int(body, op, depth=4):
+    """Integer value of an operand that is a literal, or a local whose only definition is (a copy of) a literal."""
+    for _ in range(depth):
+        c = op_const(op)
+        if c is not None:
+            return c.get("int")
+        l = op_local(op)
+        if l is None:
+            return None
+        defs = [s for bb, i, s in body.stmts() if s["k"] == "assign" and s["place"]["l"] == l and not s["place"]["p"]]
+        if len(defs) != 1 or defs[0]["rv"]["k"] != "use":
+            return None
+        op = defs[0]["rv"]["op"]
+    return None
